@@ -5,6 +5,7 @@
 package seq
 
 import (
+	"crypto/sha256"
 	"sync"
 	"sync/atomic"
 
@@ -27,6 +28,8 @@ type Config struct {
 	New      func() System
 	// Enabled may prune operations that are no-ops in the current state (nil = all enabled).
 	Enabled func(s System, op int) bool
+	// MaxStates caps the number of distinct states kept (0 = no cap); reaching it sets Stats.Stopped.
+	MaxStates int64
 	// Stop is polled; when it returns true the search winds down (a cap, not a verdict).
 	Stop func() bool
 	// OnFail receives every failing sequence.
@@ -42,10 +45,41 @@ type Stats struct {
 	Stopped     bool
 }
 
+// visited maps the 128-bit digest of a canonical state to the deepest remaining depth it was
+// explored with; striped so that workers rarely contend, and compact (digest + one byte) so that
+// 10^8 states fit in memory. A digest collision (probability < 2^-60 at 10^9 states) would merge
+// two states; nothing else is lost by hashing.
+type visited struct {
+	stripes [256]struct {
+		mu sync.Mutex
+		m  map[[16]byte]int8
+	}
+}
+
+// enter reports whether the state still has to be explored with this remaining depth, and whether it is new.
+func (v *visited) enter(key string, remaining int) (explore, fresh bool) {
+	sum := sha256.Sum256([]byte(key))
+	var k [16]byte
+	copy(k[:], sum[:16])
+	st := &v.stripes[sum[16]]
+	st.mu.Lock()
+	defer st.mu.Unlock()
+	if st.m == nil {
+		st.m = map[[16]byte]int8{}
+	}
+	old, ok := st.m[k]
+	if ok && int(old) >= remaining {
+		return false, false
+	}
+	st.m[k] = int8(remaining)
+	return true, !ok
+}
+
 type searcher struct {
 	cfg     Config
-	visited sync.Map // key -> *int32 remaining depth explored
+	visited visited
 	st      Stats
+	stopped atomic.Bool
 }
 
 func (s *searcher) replay(prefix []int) System {
@@ -58,27 +92,21 @@ func (s *searcher) replay(prefix []int) System {
 }
 
 func (s *searcher) explore(prefix []int, live System) {
-	if s.cfg.Stop != nil && s.cfg.Stop() {
-		s.st.Stopped = true
+	if s.stopped.Load() || (s.cfg.Stop != nil && s.cfg.Stop()) {
+		s.stopped.Store(true)
 		return
 	}
 	remaining := s.cfg.MaxDepth - len(prefix)
 	if s.cfg.Dedup {
-		k := live.Key()
-		nv := int32(remaining)
-		if old, loaded := s.visited.LoadOrStore(k, &nv); loaded {
-			p := old.(*int32)
-			for {
-				cur := atomic.LoadInt32(p)
-				if cur >= nv {
-					return // already explored at least this deep from here
-				}
-				if atomic.CompareAndSwapInt32(p, cur, nv) {
-					break
-				}
+		explore, fresh := s.visited.enter(live.Key(), remaining)
+		if fresh {
+			if n := atomic.AddInt64(&s.st.States, 1); s.cfg.MaxStates > 0 && n > s.cfg.MaxStates {
+				s.stopped.Store(true) // memory cap, reported as a cap by the caller
+				return
 			}
-		} else {
-			atomic.AddInt64(&s.st.States, 1)
+		}
+		if !explore {
+			return // already explored at least this deep from here
 		}
 	} else {
 		atomic.AddInt64(&s.st.States, 1)
@@ -119,6 +147,7 @@ func Run(cfg Config) Stats {
 	s.st.MaxDepth = cfg.MaxDepth
 	if cfg.MaxDepth < 2 {
 		s.explore(nil, cfg.New())
+		s.st.Stopped = s.stopped.Load()
 		return s.st
 	}
 	// shard on depth-2 prefixes; the root and depth-1 states are visited by the shards' replays
@@ -145,5 +174,6 @@ func Run(cfg Config) Stats {
 		}
 		s.explore(prefix, sys)
 	})
+	s.st.Stopped = s.stopped.Load()
 	return s.st
 }
